@@ -67,7 +67,7 @@ def gen_case(rng, ctx, kind):
         events.append([int(rng.integers(0, n_views + 1)), ops.gen_op(rng, keys, max_value=maxv, big=0.1)])
     return {"cfg": cfg, "views": [pick(rng, ["helpers.attach_shared_memory", "attach_existing_shm"]) for _ in range(n_views)],
             "events": events, "drop_order": pick(rng, ["views-first", "owner-first"]), "strangers": [hx(rand_key(rng, 0, 5))],
-            "built_by": pick(rng, ["factory", "class"]),
+            "built_by": pick(rng, ["factory", "class", "load"]),
             "draw_seed": int(rng.integers(1, 2**30))}
 
 
@@ -89,6 +89,18 @@ def attach(how, cfg, owner):
     if how == "helpers.attach_shared_memory":
         return s.helpers.attach_shared_memory(stype, owner.args, owner.shm.name)
     v = state.make(cfg)
+    # a local sketch that has already lived a little (adds, a merge, a query) before it is pointed at the shared block
+    v.add(b"local-history", 3)
+    w = state.make(cfg)
+    w.add(b"local-history-2", 2)
+    v.merge(w)
+    if kind == "hll":
+        v.query()
+    elif kind == "hh":
+        v.query(5)
+        v.query(5, 0)
+    else:
+        v.query(b"local-history")
     v.attach_existing_shm(owner.shm.name)
     return v
 
@@ -124,8 +136,16 @@ def run_case(case, ctx, mon):
     # owner / ordinary sketch built through the class constructor or through the CountMin() factory; views through
     # helpers.attach_shared_memory (factory) or attach_existing_shm: all routes must agree on every parameter
     how = case.get("built_by", "factory")
-    plain = make_by(cfg, how, False)
-    owner = make_by(cfg, how, True)
+    plain = make_by(cfg, how if how != "load" else "factory", False)
+    if how == "load":
+        # the shared-memory owner comes out of load(..., shared_memory=True) of a non-empty saved sketch
+        for op in case["events"][:3]:
+            ops.apply_op(plain, op[1])
+        if kind != "hll":
+            plain.n_added_records[1] = np.uint64(7)
+        owner = state.save_load(plain, kind, True, bool(kind in state.CMS_KINDS and case["draw_seed"] % 2))
+    else:
+        owner = make_by(cfg, how, True)
     mon.seen("owner_built_by", f"{kind}:{how}")
     name = owner.shm.name.lstrip("/")
     path = "/dev/shm/" + name
@@ -142,8 +162,18 @@ def run_case(case, ctx, mon):
                 mon.check(int(getattr(hobj, pname)) == int(cfg[pname]), "handle-has-the-requested-parameter", handle=hname, parameter=pname,
                           got=int(getattr(hobj, pname)), want=int(cfg[pname]), cfg=cfg, built_by=how)
     agree(mon, plain, handles, kind, universe, cfg, "attach")
+    late_at = len(case["events"]) // 2
     used = set()
     for n_op, (hi, op) in enumerate(case["events"]):
+        if n_op == late_at and n_op > 0:
+            # a view attached late, to a block that already holds data, must see it at once (also with threshold 0)
+            lv = attach(pick(np.random.default_rng(case["draw_seed"]), ["helpers.attach_shared_memory", "attach_existing_shm"]), cfg, owner)
+            views.append(lv)
+            handles.append(("late-view", lv))
+            agree(mon, plain, handles[-1:], kind, universe, cfg, "late attach")
+            mon.count("late_views")
+            lv = None
+        hi = hi % len(handles)
         hname, h = handles[hi]
         used.add(hi)
         if is_log:
@@ -245,3 +275,5 @@ def floors(mon, ctx):
     mon.floor("deletion orders", len(mon.classes["drop_order"]), 2)
     mon.floor("operations through a view", mon.counters["ops_via:view"], 100)
     mon.floor("merges out of / into handles", mon.counters["merges_through_handles"], 50)
+    mon.floor("views attached late", mon.counters["late_views"], 50)
+    mon.floor("owners built by load(shared_memory=True)", len([x for x in mon.classes["owner_built_by"] if x.endswith(":load")]), 4)
